@@ -247,17 +247,150 @@ Example ex_lib_parse :
   end.
 Proof. vm_compute. repeat split. Qed.
 
+(* ---- functions:  FUNCTION name : type  blocks  statements  END_FUNCTION ---- *)
+Notation rwf_fwb := (wf_fwb token tok_class).
+Notation ris_tyref := (is_tyref token tok_class).
+Notation rtype_text := (type_text token tok_class t_text ty_name).
+Notation rsize_l := (StStmtProofs.size_l token).
+
+Record sfunc := mkSFunc {
+  sf_kw : token; sf_w0 : list token; sf_nm : token; sf_w1 : list token; sf_colon : token; sf_w2 : list token; sf_ty : token;
+  sf_blocks : list rwb; sf_w3 : list token; sf_body : rsl; sf_w4 : list token; sf_en : token }.
+Definition flat_f (u : sfunc) : list token :=
+  sf_kw u :: sf_w0 u ++ sf_nm u :: sf_w1 u ++ sf_colon u :: sf_w2 u ++ sf_ty u :: rflat_wbs (sf_blocks u) ++ sf_w3 u ++ rflat_l (sf_body u) ++
+  sf_w4 u ++ [sf_en u].
+Definition wf_f (u : sfunc) : Prop :=
+  t_kind (sf_kw u) = KFunction /\ rtriv (sf_w0 u) /\ t_kind (sf_nm u) = KIdentifier /\ rtriv (sf_w1 u) /\ tok_class (sf_colon u) = CColon /\
+  rtriv (sf_w2 u) /\ ris_tyref (sf_ty u) /\ Forall rwf_fwb (sf_blocks u) /\ rtriv (sf_w3 u) /\ rwf_l (sf_body u) /\
+  (rabsorbs (sf_body u) = true -> sf_w4 u = []) /\ rtriv (sf_w4 u) /\ t_kind (sf_en u) = KEndFunction.
+Definition erase_f (u : sfunc) : func_ :=
+  mkFunc (t_text (sf_nm u)) (rtype_text (sf_ty u)) (flat_map rerase_wb (sf_blocks u)) (rerase_l (sf_body u)).
+Definition size_f (u : sfunc) : nat := size_wbs token (sf_blocks u) + 1 + rsize_l (sf_body u).
+
+Lemma class_function t : t_kind t = KFunction -> tok_class t = CKw KwEndPou.
+Proof. intro H. rewrite class_by_kind; rewrite H; [reflexivity | discriminate]. Qed.
+Lemma class_endfunction t : t_kind t = KEndFunction -> tok_class t = CKw KwEndPou.
+Proof. intro H. rewrite class_by_kind; rewrite H; [reflexivity | discriminate]. Qed.
+
+Theorem parse_function_spelled u rest F : wf_f u -> size_f u + 1 <= F ->
+  parse_function F (flat_f u ++ rest) = FOk (erase_f u) rest.
+Proof.
+  intros (Hk & H0 & Hnm & H1 & Hcolon & H2 & Hty & Hbl & H3 & Hl & Habs & H4 & Hen) HF.
+  pose proof (class_id _ Hnm) as Cnm. pose proof (class_endfunction _ Hen) as Cen.
+  assert (Snm : solid token tok_class (sf_nm u)) by (unfold solid; rewrite Cnm; discriminate).
+  assert (Sen : solid token tok_class (sf_en u)) by (unfold solid; rewrite Cen; discriminate).
+  assert (Scolon : solid token tok_class (sf_colon u)) by (unfold solid; rewrite Hcolon; discriminate).
+  pose proof (tyref_solid token tok_class (sf_ty u) Hty) as Sty.
+  unfold size_f in HF. unfold erase_f.
+  destruct u as [kw w0 nm w1 colon w2 ty bl w3 bd w4 en]. cbn [sf_kw sf_w0 sf_nm sf_w1 sf_colon sf_w2 sf_ty sf_blocks sf_w3 sf_body sf_w4 sf_en] in *.
+  unfold flat_f. cbn [sf_kw sf_w0 sf_nm sf_w1 sf_colon sf_w2 sf_ty sf_blocks sf_w3 sf_body sf_w4 sf_en app].
+  set (tail := w3 ++ rflat_l bd ++ w4 ++ en :: rest).
+  replace ((w0 ++ nm :: w1 ++ colon :: w2 ++ ty :: rflat_wbs bl ++ w3 ++ rflat_l bd ++ w4 ++ [en]) ++ rest)
+    with (w0 ++ nm :: w1 ++ colon :: w2 ++ ty :: rflat_wbs bl ++ tail)
+    by (unfold tail; repeat (rewrite <- app_assoc; cbn [app]); reflexivity).
+  unfold parse_function. rewrite Hk. cbn [kind_eqb tok_index N.eqb Pos.eqb].
+  unfold st_skip at 1. rewrite (skip_app_triv token tok_class w0 _ H0), (skip_solid token tok_class nm _ Snm). rewrite Hnm.
+  cbn [kind_eqb tok_index N.eqb Pos.eqb].
+  rewrite (next_is_at token tok_class _ w1 colon _ H1 Scolon) by (rewrite Hcolon; reflexivity).
+  unfold st_skip at 1. rewrite (skip_app_triv token tok_class w2 _ H2), (skip_solid token tok_class ty _ Sty).
+  assert (Ety : (if is_type (tok_class ty) then Some (ty_name ty) else match tok_class ty with CId => Some (t_text ty) | _ => None end) = Some (rtype_text ty)).
+  { unfold type_text. destruct Hty as [Ht | Ht]; [rewrite Ht; reflexivity|]. rewrite Ht. reflexivity. }
+  rewrite Ety.
+  assert (Hnb : no_block_next token tok_class tail) by (unfold tail; apply stmt_list_no_block; assumption).
+  assert (Hbd : plist token tok_class t_text tok_num op_level F (st_skip tail) = Ok (rerase_l bd, w4 ++ en :: rest)).
+  { unfold tail, st_skip. rewrite (skip_app_triv token tok_class w3 _ H3), (flat_l_skip token tok_class op_level bd _ Hl).
+    rewrite (plist_real bd (w4 ++ en :: rest)); [reflexivity | exact Hl | eapply closer_at; [exact H4 | exact Cen | reflexivity] | | lia].
+    intro Hb. rewrite (Habs Hb). cbn [app]. apply (skip_solid token tok_class en rest Sen). }
+  assert (Hend : match st_skip (w4 ++ en :: rest) with
+            | e :: r5 => if kind_eqb (t_kind e) KEndFunction then FOk (mkFunc (t_text nm) (rtype_text ty) (flat_map rerase_wb bl) (rerase_l bd)) r5 else FFail
+            | [] => FFail
+            end = FOk (mkFunc (t_text nm) (rtype_text ty) (flat_map rerase_wb bl) (rerase_l bd)) rest).
+  { unfold st_skip. rewrite (skip_app_triv token tok_class w4 _ H4), (skip_solid token tok_class en _ Sen), Hen. reflexivity. }
+  destruct bl as [|[bw b] bl'].
+  - change (rflat_wbs [] ++ tail) with tail.
+    assert (Hnb' : no_block_next token tok_class (st_skip tail)) by (unfold no_block_next, st_skip in *; rewrite skip_skip; exact Hnb).
+    pose proof (fblocks_spelled token tok_class t_text tok_num ty_name [] (Forall_nil _) [] (st_skip tail) F Hnb') as B.
+    change (rflat_wbs [] ++ st_skip tail) with (st_skip tail) in B. rewrite B by (cbn; lia).
+    cbn [app flat_map].
+    assert (Ess : st_skip (st_skip tail) = st_skip tail) by (apply skip_skip). rewrite Ess. rewrite Hbd. exact Hend.
+  - pose proof (Forall_inv Hbl) as (Hbw & Hb). pose proof (Forall_inv_tail Hbl) as Hbl'.
+    assert (E2 : st_skip (rflat_wbs (WB token bw b :: bl') ++ tail) = rflat_wbs (WB token [] b :: bl') ++ tail).
+    { unfold flat_wbs, st_skip. cbn [map List.concat flat_wb app]. rewrite <- !app_assoc.
+      rewrite (skip_app_triv token tok_class bw _ Hbw). apply (flat_bk_skip token tok_class b _ (proj1 Hb)). }
+    rewrite E2.
+    assert (Hbl0 : Forall rwf_fwb (WB token [] b :: bl')) by (constructor; [split; [constructor | exact Hb] | exact Hbl']).
+    rewrite (fblocks_spelled token tok_class t_text tok_num ty_name _ Hbl0 [] tail F Hnb).
+    + cbn [app]. rewrite Hbd. exact Hend.
+    + cbn [size_wbs] in *. lia.
+Qed.
+
+Lemma size_f_len u : size_f u <= 3 * List.length (flat_f u).
+Proof.
+  unfold size_f, flat_f. pose proof (size_wbs_len token (sf_blocks u)) as B.
+  repeat (rewrite app_length || cbn [List.length]). pose proof (proj1 (proj2 (size_bound_s token)) (sf_body u)) as Bl. lia.
+Qed.
+
+Lemma fwbs_wbs l : Forall rwf_fwb l -> Forall rwf_wb l.
+Proof. intro H. eapply Forall_impl; [|exact H]. apply wf_fwb_wb. Qed.
+
+Notation rhfh := (hfh token tok_class).
+Lemma hfh_triv_app w r : rtriv w -> rhfh r -> rhfh (w ++ r).
+Proof. intros Hw Hr. destruct w as [|t w]; [exact Hr|]. cbn [app]. unfold hfh. rewrite (Forall_inv Hw). discriminate. Qed.
+
+Lemma flat_l_hfh (l : rsl) r : rwf_l l -> rhfh (rflat_l l ++ r).
+Proof.
+  intros Hl.
+  assert (G : forall g r0, wf_g token tok_class op_level true g -> rhfh (flat_g token g ++ r0)).
+  { intros [w1 semi w2|s m w0 semi] r0; cbn [wf_g flat_g].
+    - intros (Hw1 & _ & Hsemi & _). rewrite (Hw1 eq_refl). cbn [app]. unfold hfh. rewrite Hsemi. discriminate.
+    - intros (_ & Hs & _). rewrite <- !app_assoc.
+      destruct s; cbn [wf_s flat_s] in Hs; (try destruct Hs as (Hs & _)); cbn [flat_s app]; unfold hfh; rewrite Hs; discriminate. }
+  destruct l as [g|g l].
+  - change (rflat_l (LOne token g)) with (flat_g token g). change (wf_g token tok_class op_level true g) in Hl. apply G. exact Hl.
+  - change (rflat_l (LCons token g l)) with (flat_g token g ++ flat_l token l).
+    change (wf_g token tok_class op_level true g /\ wf_l token tok_class op_level (gempty token g) l) in Hl.
+    destruct Hl as (Hg & _). rewrite <- app_assoc. apply G. exact Hg.
+Qed.
+
+Lemma flat_wbs_hfh l r : Forall rwf_wb l -> rhfh r -> rhfh (rflat_wbs l ++ r).
+Proof.
+  intros Hl Hr. destruct l as [|[w b] l]; [exact Hr|]. destruct (Forall_inv Hl) as (Hw & c & q & Hc & _).
+  unfold flat_wbs. cbn [map List.concat flat_wb]. rewrite <- !app_assoc. apply hfh_triv_app; [exact Hw|].
+  unfold flat_bk. cbn [app]. unfold hfh. destruct (tok_class (bk_kw token b)); try discriminate Hc. discriminate.
+Qed.
+
+Lemma scoped_f u : wf_f u -> rscoped (flat_f u).
+Proof.
+  intros (Hk & H0 & Hnm & H1 & Hcolon & H2 & Hty & Hbl & H3 & Hl & Habs & H4 & Hen).
+  pose proof (class_id _ Hnm) as Cnm. pose proof (class_endfunction _ Hen) as Cen. pose proof (class_function _ Hk) as Ckw.
+  unfold flat_f.
+  apply scoped_cons; [rewrite Ckw; reflexivity|]. apply scoped_app; [apply scoped_triv; exact H0|].
+  apply scoped_cons; [rewrite Cnm; reflexivity|]. apply scoped_app; [apply scoped_triv; exact H1|].
+  apply scoped_cons; [rewrite Hcolon; reflexivity|]. apply scoped_app; [apply scoped_triv; exact H2|].
+  (* the type: a type keyword is followed by no '#' (a block keyword, a statement or the closing keyword follow) *)
+  change (sf_ty u :: rflat_wbs (sf_blocks u) ++ sf_w3 u ++ rflat_l (sf_body u) ++ sf_w4 u ++ [sf_en u])
+    with ([sf_ty u] ++ (rflat_wbs (sf_blocks u) ++ sf_w3 u ++ rflat_l (sf_body u) ++ sf_w4 u ++ [sf_en u])).
+  assert (Srest : rscoped (rflat_wbs (sf_blocks u) ++ sf_w3 u ++ rflat_l (sf_body u) ++ sf_w4 u ++ [sf_en u])).
+  { apply scoped_app; [apply scoped_wbs; apply fwbs_wbs; exact Hbl|].
+    apply scoped_app; [apply scoped_triv; exact H3|].
+    apply scoped_app; [exact (proj1 (proj2 (wf_scoped_s token tok_class op_level)) (sf_body u) true Hl)|].
+    apply scoped_app; [apply scoped_triv; exact H4|]. apply scoped_tok. rewrite Cen. reflexivity. }
+  apply (scoped2_then token tok_class); [apply scoped2_tyref; exact Hty | exact Srest | |].
+  - destruct (rflat_wbs (sf_blocks u)); [destruct (sf_w3 u); [destruct (rflat_l (sf_body u)); [destruct (sf_w4 u)|]|]|]; discriminate.
+  - apply flat_wbs_hfh; [apply fwbs_wbs; exact Hbl|]. apply hfh_triv_app; [exact H3|]. apply flat_l_hfh. exact Hl.
+Qed.
+
 (* ---- libraries with TYPE blocks ---- *)
 Notation rtb := (stblock token).
 Notation rwf_tb := (wf_tb token tok_class is_int_ty).
 Notation rflat_tb := (flat_tb token).
 Notation rerase_tb := (erase_tb token tok_class t_text tok_num ty_name).
 
-Inductive selem := SeTypes (b : rtb) | SeUnit (u : sunit).
-Definition flat_e (e : selem) : list token := match e with SeTypes b => rflat_tb b | SeUnit u => flat_u u end.
-Definition wf_e (e : selem) : Prop := match e with SeTypes b => rwf_tb b | SeUnit u => wf_u u end.
-Definition erase_e (e : selem) : elem := match e with SeTypes b => ETypes (rerase_tb b) | SeUnit u => EUnit (erase_u u) end.
-Definition size_e (e : selem) : nat := match e with SeTypes b => size_tb token b | SeUnit u => size_u u end.
+Inductive selem := SeTypes (b : rtb) | SeUnit (u : sunit) | SeFunc (f : sfunc).
+Definition flat_e (e : selem) : list token := match e with SeTypes b => rflat_tb b | SeUnit u => flat_u u | SeFunc f => flat_f f end.
+Definition wf_e (e : selem) : Prop := match e with SeTypes b => rwf_tb b | SeUnit u => wf_u u | SeFunc f => wf_f f end.
+Definition erase_e (e : selem) : elem := match e with SeTypes b => ETypes (rerase_tb b) | SeUnit u => EUnit (erase_u u) | SeFunc f => EFunc (erase_f f) end.
+Definition size_e (e : selem) : nat := match e with SeTypes b => size_tb token b | SeUnit u => size_u u | SeFunc f => size_f f end.
 
 Inductive swe := WE (w : list token) (e : selem).
 Definition flat_we (x : swe) : list token := match x with WE w e => w ++ flat_e e end.
@@ -267,9 +400,17 @@ Definition erase_we (x : swe) : elem := match x with WE _ e => erase_e e end.
 
 Lemma flat_e_skip e r : wf_e e -> st_skip (flat_e e ++ r) = flat_e e ++ r.
 Proof.
-  destruct e as [b|u]; cbn [wf_e flat_e].
+  destruct e as [b|u|fn]; cbn [wf_e flat_e].
   - intros (Hk & _). unfold flat_tb. cbn [app]. apply skip_solid. unfold solid. rewrite Hk. discriminate.
   - apply flat_u_skip.
+  - intros (Hk & _). unfold flat_f. cbn [app]. apply skip_solid. unfold solid. rewrite (class_function _ Hk). discriminate.
+Qed.
+
+Lemma unit_not_function u : kind_of u <> None -> kind_eqb (t_kind (su_kw u)) KFunction = false.
+Proof.
+  unfold kind_of. intro H. destruct (kind_eqb (t_kind (su_kw u)) KFunctionBlock) eqn:E1.
+  - apply kind_eqb_eq in E1. rewrite E1. reflexivity.
+  - destruct (kind_eqb (t_kind (su_kw u)) KProgram) eqn:E2; [|contradiction H; reflexivity]. apply kind_eqb_eq in E2. rewrite E2. reflexivity.
 Qed.
 
 Lemma elements_spelled l : Forall wf_we l -> forall acc wend F n, rtriv wend ->
@@ -284,23 +425,31 @@ Proof.
     unfold flat_lib2. cbn [map List.concat flat_we]. fold (flat_lib2 l).
     replace (((w ++ flat_e e) ++ flat_lib2 l) ++ wend) with (w ++ flat_e e ++ (flat_lib2 l ++ wend))
       by (repeat (rewrite <- app_assoc; cbn [app]); reflexivity).
-    cbn [elements]. unfold st_skip at 1 2. rewrite (skip_app_triv token tok_class w _ Hw). fold (st_skip (flat_e e ++ flat_lib2 l ++ wend)).
+    cbn [elements]. unfold st_skip at 1 2 3. rewrite (skip_app_triv token tok_class w _ Hw). fold (st_skip (flat_e e ++ flat_lib2 l ++ wend)).
     rewrite (flat_e_skip e _ He).
     pose proof (HF (WE w e) (or_introl eq_refl)) as HFe. cbn in HFe.
     assert (IHn : forall acc', elements F n acc' (flat_lib2 l ++ wend) = L2Ok (acc' ++ map erase_we l) wend)
       by (intro acc'; apply IH; try assumption; try lia; intros x Hx; apply HF; right; exact Hx).
-    destruct e as [b|u]; cbn [wf_e flat_e erase_e size_e] in *.
+    destruct e as [b|u|fn]; cbn [wf_e flat_e erase_e size_e] in *.
     + rewrite (type_block_at token tok_class t_text tok_num ty_name is_int_ty b (flat_lib2 l ++ wend) F He) by lia.
       rewrite IHn. cbn [map erase_we erase_e]. rewrite <- app_assoc. reflexivity.
     + destruct He as (Hk & Hrest). destruct (class_of_kw u Hk) as (Ckw & _).
       assert (Ef : type_block token tok_class t_text tok_num ty_name is_int_ty F (flat_u u ++ flat_lib2 l ++ wend) = DFail).
       { unfold flat_u. cbn [app]. apply type_block_fails. rewrite Ckw. reflexivity. }
-      rewrite Ef. rewrite (parse_unit_spelled u (flat_lib2 l ++ wend) F (conj Hk Hrest)) by lia.
+      rewrite Ef.
+      assert (Eff : parse_function F (flat_u u ++ flat_lib2 l ++ wend) = FFail).
+      { unfold flat_u. cbn [app]. unfold parse_function. rewrite (unit_not_function u Hk). reflexivity. }
+      rewrite Eff. rewrite (parse_unit_spelled u (flat_lib2 l ++ wend) F (conj Hk Hrest)) by lia.
+      rewrite IHn. cbn [map erase_we erase_e]. rewrite <- app_assoc. reflexivity.
+    + pose proof (class_function _ (proj1 He)) as Ckw.
+      assert (Ef : type_block token tok_class t_text tok_num ty_name is_int_ty F (flat_f fn ++ flat_lib2 l ++ wend) = DFail).
+      { unfold flat_f. cbn [app]. apply type_block_fails. rewrite Ckw. reflexivity. }
+      rewrite Ef. rewrite (parse_function_spelled fn (flat_lib2 l ++ wend) F He) by lia.
       rewrite IHn. cbn [map erase_we erase_e]. rewrite <- app_assoc. reflexivity.
 Qed.
 
 Lemma scoped_e e : wf_e e -> rscoped (flat_e e).
-Proof. destruct e; cbn [wf_e flat_e]; [apply scoped_tb | apply scoped_u]. Qed.
+Proof. destruct e; cbn [wf_e flat_e]; [apply scoped_tb | apply scoped_u | apply scoped_f]. Qed.
 
 Lemma scoped_lib2 l : Forall wf_we l -> rscoped (flat_lib2 l).
 Proof.
@@ -311,7 +460,7 @@ Qed.
 
 Lemma size_e_len e : size_e e <= 3 * List.length (flat_e e).
 Proof.
-  destruct e as [b|u]; cbn [size_e flat_e]; [|apply size_u_len]. pose proof (size_tb_len token b). lia.
+  destruct e as [b|u|fn]; cbn [size_e flat_e]; [|apply size_u_len|apply size_f_len]. pose proof (size_tb_len token b). lia.
 Qed.
 
 Lemma flat_lib2_len l x : In x l -> match x with WE _ e => List.length (flat_e e) <= List.length (flat_lib2 l) end.
@@ -323,7 +472,7 @@ Proof.
 Qed.
 
 Lemma flat_e_pos e : wf_e e -> 1 <= List.length (flat_e e).
-Proof. destruct e as [b|u]; cbn [flat_e]; intros _; [unfold flat_tb | unfold flat_u]; cbn [List.length]; lia. Qed.
+Proof. destruct e as [b|u|fn]; cbn [flat_e]; intros _; [unfold flat_tb | unfold flat_u | unfold flat_f]; cbn [List.length]; lia. Qed.
 
 Lemma lib2_len l : Forall wf_we l -> List.length l <= List.length (flat_lib2 l).
 Proof.
